@@ -138,7 +138,7 @@ func (x *Exec) evalSpec(sc *specCtx, e ast.Expr) Value {
 			if !ok {
 				panic(engineErr("bad float literal %s", e.Value))
 			}
-			return Scalar{realLitRat(r), untypedFloat}
+			return Scalar{realLitRat(roundToFloat64(r)), untypedFloat}
 		case token.STRING:
 			s, err := strconv.Unquote(e.Value)
 			if err != nil {
@@ -323,7 +323,7 @@ func (x *Exec) constToValue(v constant.Value, t types.Type) Value {
 		if bt, ok := t.Underlying().(*types.Basic); ok && bt.Info()&types.IsInteger != 0 {
 			return Scalar{bigLit(r.Num()), t}
 		}
-		return Scalar{realLitRat(r), t}
+		return Scalar{realLitRat(roundToFloat64(r)), t}
 	case constant.String:
 		return Scalar{x.sym.strConst(constant.StringVal(v)), t}
 	}
@@ -497,8 +497,8 @@ func (x *Exec) evalBinary(sc *specCtx, e *ast.BinaryExpr) Value {
 		}
 		return Scalar{mk(SInt, "godiv", at, bt), typ}
 	case token.REM:
-		if sc.st != nil && x.entails(sc.st, and(mk(SBool, ">=", at, intLit(0)), mk(SBool, ">", bt, intLit(0)))) {
-			return Scalar{mk(SInt, "mod", at, bt), typ}
+		if sc.st != nil && len(sc.bound) == 0 {
+			return Scalar{x.modTerm(sc.st, at, bt), typ}
 		}
 		return Scalar{mk(SInt, "gomod", at, bt), typ}
 	}
@@ -516,7 +516,10 @@ func (x *Exec) specEqual(a, b Value) Term {
 		case IfaceV:
 			return eq(v.Tag, intLit(0))
 		case PtrV:
-			return eq(x.ptrScalar(v), intLit(0))
+			if v.Elem {
+				return tFalse // address of a slice element is never nil
+			}
+			return eq(v.Base, intLit(0)) // a field address is nil only if its base is
 		case SliceV:
 			return eq(v.Arr, intLit(0))
 		case FuncV:
@@ -610,6 +613,26 @@ func (x *Exec) evalSpecCall2(sc *specCtx, e *ast.CallExpr) Value {
 		o.heap = sc.head.heap
 		o.envOver = sc.head.env
 		return x.evalSpec(&o, e.Args[0])
+	case "local":
+		// local(x): the function's local variable x, even when a result/parameter of the same name shadows it
+		need(1)
+		id, ok := e.Args[0].(*ast.Ident)
+		if !ok {
+			panic(engineErr("local(name) expects an identifier"))
+		}
+		if sc.frame == nil {
+			return PoisonV{}
+		}
+		ent, ok := sc.frame.env[id.Name]
+		if !ok {
+			return PoisonV{}
+		}
+		if ent.isAddr {
+			if p, ok := ent.v.(PtrV); ok {
+				return sc.load(p)
+			}
+		}
+		return ent.v
 	case "implies":
 		need(2)
 		return Scalar{implies(x.evalBool(sc, e.Args[0]), x.evalBool(sc, e.Args[1])), boolT}
@@ -856,18 +879,33 @@ func (x *Exec) evalAddr(sc *specCtx, e ast.Expr) (PtrV, bool) {
 	case *ast.ParenExpr:
 		return x.evalAddr(sc, e.X)
 	case *ast.SelectorExpr:
+		var b PtrV
 		base := x.evalSpec(sc, e.X)
-		b, ok := base.(PtrV)
-		if !ok {
+		if pb, ok := base.(PtrV); ok {
+			b = pb
+		} else if ab, ok := x.evalAddr(sc, e.X); ok {
+			b = ab // field of a struct held by value inside an addressable object
+		} else {
 			return PtrV{}, false
 		}
 		_, t := subLeaves(b.Root, b.Path)
+		if _, isPtr := t.Underlying().(*types.Pointer); isPtr {
+			lp, ok := sc.load(b).(PtrV)
+			if !ok {
+				return PtrV{}, false
+			}
+			b = lp
+			_, t = subLeaves(b.Root, b.Path)
+		}
 		path, _, ok := fieldPath(t, e.Sel.Name)
 		if !ok {
 			return PtrV{}, false
 		}
 		return PtrV{Base: b.Base, Root: b.Root, Path: append(append([]int(nil), b.Path...), path...), Elem: b.Elem, Idx: b.Idx}, true
 	case *ast.Ident:
+		if p, ok := sc.addrVars[e.Name]; ok {
+			return p, true
+		}
 		if sc.frame != nil {
 			if ent, ok := sc.frame.env[e.Name]; ok && ent.isAddr {
 				if p, ok := ent.v.(PtrV); ok {
@@ -1513,4 +1551,14 @@ func letMap(c *FuncContract) map[string]ast.Expr {
 		m[l.Label] = l.Expr
 	}
 	return m
+}
+
+// roundToFloat64: float constants take the value of the nearest float64, as they do in the compiled code.
+func roundToFloat64(r *big.Rat) *big.Rat {
+	f := new(big.Float).SetPrec(53).SetMode(big.ToNearestEven).SetRat(r)
+	out, _ := f.Rat(nil)
+	if out == nil {
+		return r
+	}
+	return out
 }
